@@ -107,15 +107,22 @@ func (x *Exec) name(s *State, prefix, sort, term string) string {
 	if !strings.HasPrefix(term, "(") {
 		return term
 	}
+	if s.names == nil {
+		s.names = map[string]string{}
+	}
+	if n, ok := s.names[term]; ok {
+		return n
+	}
 	n := x.fresh(s, prefix, sort)
 	s.assume(eq(n, term))
+	s.names[term] = n
 	return n
 }
 
 func (x *Exec) zeroOf(T types.Type) string {
 	if m, ok := T.Underlying().(*types.Map); ok {
 		ms := x.mapSort(m)
-		return fmt.Sprintf("(mk_%s ((as const (Array %s Bool)) false) ((as const (Array %s %s)) %s))", ms, x.c.sortOf(m.Key()), x.c.sortOf(m.Key()), x.c.sortOf(m.Elem()), x.zeroOf(m.Elem()))
+		return fmt.Sprintf("(mk_%s ((as const (Array %s Bool)) false) %s)", ms, x.c.sortOf(m.Key()), x.c.constArr(x.c.sortOf(m.Key()), x.c.sortOf(m.Elem()), x.zeroOf(m.Elem())))
 	}
 	srt := x.c.sortOf(T)
 	switch {
@@ -144,7 +151,7 @@ func (x *Exec) zeroOf(T types.Type) string {
 			et = u.Elem()
 			n = fmt.Sprint(u.Len())
 		}
-		return fmt.Sprintf("(mk_%s ((as const (Array Int %s)) %s) 0 %s)", srt, x.c.sortOf(et), x.zeroOf(et), n)
+		return fmt.Sprintf("(mk_%s %s 0 %s)", srt, x.c.constArr("Int", x.c.sortOf(et), x.zeroOf(et)), n)
 	}
 	if si := x.c.structInfo(T); si != nil {
 		if len(si.Fields) == 0 {
@@ -270,6 +277,9 @@ func (x *Exec) assumeInv(s *State, T types.Type, term string) {
 	}
 	if a, ok := T.Underlying().(*types.Array); ok && srt == "Bytes" {
 		s.assume(eq(sx("blen", term), fmt.Sprint(a.Len())))
+	} else if srt == "Bytes" {
+		// a byte string held by the program fits in memory (A-mem); the Bytes theory itself has no length bound
+		s.assume(sx("<", sx("blen", term), pow2(63)))
 	}
 }
 
@@ -530,7 +540,7 @@ func (x *Exec) panicIf(s *State, cond, what string) {
 		x.counter["nopanic."+what]++
 		x.oblige(s, "nopanic", what, not(cond), nil)
 	}
-	s.assume(not(cond))
+	s.assumeBranch(not(cond))
 }
 
 // ---------------------------------------------------------------------------
@@ -815,25 +825,36 @@ func (x *Exec) instrs(s *State, env map[ssa.Value]*Val, fr *Frame, b *ssa.BasicB
 			tb, fb := b.Succs[0], b.Succs[1]
 			ct, cf := c, not(c)
 			okT, okF := ct != "false", cf != "false"
+			// a condition already decided on this path (protobuf getters re-test the same nil-ness)
+			for i := len(s.pc) - 1; i >= 0 && okT && okF; i-- {
+				if !s.pcb[i] {
+					continue
+				}
+				if s.pc[i] == ct {
+					okF = false
+				} else if s.pc[i] == cf {
+					okT = false
+				}
+			}
 			if okT && okF && x.pruner != nil {
 				okT, okF = x.pruner.feasible2(x, s, ct, cf)
 			}
 			if okT && okF {
 				s2 := s.clone()
 				env2 := cloneEnv(env)
-				s.assume(ct)
+				s.assumeBranch(ct)
 				s.trace = append(s.trace, fmt.Sprintf("%d:T", pos.Line))
 				x.runBlock(s, env, fr, tb, b)
-				s2.assume(cf)
+				s2.assumeBranch(cf)
 				s2.trace = append(s2.trace, fmt.Sprintf("%d:F", pos.Line))
 				x.runBlock(s2, env2, fr, fb, b)
 			} else if okT {
 				x.pruned++
-				s.assume(ct)
+				s.assumeBranch(ct)
 				x.runBlock(s, env, fr, tb, b)
 			} else if okF {
 				x.pruned++
-				s.assume(cf)
+				s.assumeBranch(cf)
 				x.runBlock(s, env, fr, fb, b)
 			} else {
 				x.pruned++
